@@ -7,6 +7,7 @@ import (
 	"os"
 	"os/exec"
 	"path/filepath"
+	"strconv"
 	"strings"
 	"sync"
 	"time"
@@ -21,6 +22,23 @@ var convDst = []string{"srt", "ssa", "ass", "stl", "ttml", "vtt"}
 
 // plain words keep the text representable in every destination
 var plainWords = []string{"Hello", "world", "How are you", "fine", "42", "Yes", "No", "subtitle", "line two", "ok"}
+
+// mergeArgCues: the second document of a merge: two or three plain cues; for some seeds it lies far after the first
+// document and stores its own cues latest first (a file need not be chronological)
+func mergeArgCues(seed uint64) []srtCue {
+	r := newRng(seed, "mergecues")
+	cues := plainCues(r, 2+int(seed%2))
+	if seed%3 == 0 {
+		for i := range cues {
+			cues[i].start += 3600000
+			cues[i].end += 3600000
+		}
+		for i, j := 0, len(cues)-1; i < j; i, j = i+1, j-1 {
+			cues[i], cues[j] = cues[j], cues[i]
+		}
+	}
+	return cues
+}
 
 func plainCues(r *rng, n int) []srtCue {
 	var cues []srtCue
@@ -64,6 +82,9 @@ func genSourceDoc(r *rng, f string) ([]byte, int) {
 		}
 		s, _ := astisub.ReadFromSRT(bytes.NewReader(renderSRT(r, plainCues(r, 1+r.intn(4)), true)))
 		s.Metadata = &astisub.Metadata{Framerate: []int{25, 30}[r.intn(2)], STLDisplayStandardCode: "0", Title: "conv", Language: astisub.LanguageEnglish}
+		if r.bool() { // a programme that does not start at zero (whole seconds: on a frame boundary at both rates)
+			s.Metadata.STLTimecodeStartOfProgramme = time.Duration([]int64{1, 10, 3600, 36000}[r.intn(4)]) * time.Second
+		}
 		var b bytes.Buffer
 		if err := s.WriteToSTL(&b); err != nil {
 			panic(err)
@@ -100,7 +121,7 @@ func applyOps(s *astisub.Subtitles, ops []string) (args []string) {
 		case "lin":
 			s.ApplyLinearCorrection(time.Duration(atoi64(p[1])), time.Duration(atoi64(p[2])), time.Duration(atoi64(p[3])), time.Duration(atoi64(p[4])))
 		case "merge":
-			o, _ := astisub.ReadFromSRT(bytes.NewReader(renderSRT(newRng(uint64(atoi64(p[1])), "merge"), plainCues(newRng(uint64(atoi64(p[1])), "mergecues"), 2), true)))
+			o, _ := astisub.ReadFromSRT(bytes.NewReader(renderSRT(newRng(uint64(atoi64(p[1])), "merge"), mergeArgCues(uint64(atoi64(p[1]))), true)))
 			args = append(args, "ARG", canonSubs(o))
 			s.Merge(o)
 		case "-":
@@ -246,7 +267,7 @@ func init() {
 			in2 := filepath.Join(dir, "second.srt")
 			if len(ops) == 1 && strings.HasPrefix(ops[0], "merge:") {
 				seed := uint64(atoi64(strings.Split(ops[0], ":")[1]))
-				ioutil.WriteFile(in2, renderSRT(newRng(seed, "merge"), plainCues(newRng(seed, "mergecues"), 2), true), 0644)
+				ioutil.WriteFile(in2, renderSRT(newRng(seed, "merge"), mergeArgCues(seed), true), 0644)
 			}
 			out2 := filepath.Join(dir, fileStem("cli", cv)+"."+caseVariant(dst, cv+1))
 			if args, ok := cliArgs(ops, in, in2, out2, page); ok {
@@ -343,6 +364,84 @@ func init() {
 			dst := []string{"srt", "vtt"}[r.intn(2)]
 			c.do(fmt.Sprintf("conv.pair srt %s %d 0 %s %s", dst, r.intn(12), op, encBytes(b.Bytes())))
 			c.count("cli-interaction")
+		}
+	}}
+
+	// ops.cli <frag|unfrag|add> <param ns> <items>: one operation through the command-line tool on a SubRip file
+	streams["ops.cli"] = stream{exec: func(a []string) string {
+		cli := cliBinary()
+		if strings.HasPrefix(cli, "BUILD-FAILED") {
+			return "NOBINARY"
+		}
+		xs, _ := decMItems(a[2:])
+		dir, _ := ioutil.TempDir("", "verif-opscli-")
+		defer os.RemoveAll(dir)
+		var b bytes.Buffer
+		for i, x := range xs {
+			var ls []string
+			for _, l := range x.lines {
+				ls = append(ls, strings.Join(l, ""))
+			}
+			fmt.Fprintf(&b, "%d\n%s --> %s\n%s\n\n", i+1, srtTime(x.start/1000000), srtTime(x.end/1000000), strings.Join(ls, "\n"))
+		}
+		in, out := filepath.Join(dir, "in.srt"), filepath.Join(dir, "out.srt")
+		ioutil.WriteFile(in, b.Bytes(), 0644)
+		args := []string{map[string]string{"frag": "fragment", "unfrag": "unfragment", "add": "sync"}[a[0]]}
+		switch a[0] {
+		case "frag":
+			args = append(args, "-f", time.Duration(atoi64(a[1])).String())
+		case "add":
+			args = append(args, "-s", time.Duration(atoi64(a[1])).String())
+		}
+		args = append(args, "-i", in, "-o", out)
+		if err := exec.Command(cli, args...).Run(); err != nil {
+			return "EXIT"
+		}
+		back, err := astisub.OpenFile(out)
+		if err != nil {
+			return "REOPENERR"
+		}
+		o := []string{strconv.Itoa(len(back.Items))}
+		for _, it := range back.Items {
+			var ls []string
+			for _, l := range it.Lines {
+				ls = append(ls, l.String())
+			}
+			o = append(o, fmt.Sprintf("%d,%d,%s", int64(it.StartAt), int64(it.EndAt), encStr(strings.Join(ls, "\n"))))
+		}
+		return strings.Join(o, " ")
+	}, gen: func(c *ctx) {
+		r := newRng(c.seed, "ops.cli")
+		n := 40
+		if c.thorough {
+			n = 1500
+		}
+		texts := [][][]string{{{"la la"}}, {{"la la"}}, {{"b"}}, {{"c"}, {"d e"}}}
+		for i := 0; i < n; i++ {
+			var xs []mItem
+			t := r.rangeI(0, 3) * 1000
+			for k := 0; k < 1+r.intn(6); k++ {
+				e := t + r.rangeI(1, 4)*1000
+				xs = append(xs, mItem{uid: k + 1, start: t * 1000000, end: e * 1000000, lines: texts[r.intn(len(texts))]})
+				switch r.intn(3) {
+				case 0:
+					t = e
+				case 1:
+					t = e - (e-t)/2
+				default:
+					t = e + r.rangeI(0, 3)*1000
+				}
+			}
+			kind := []string{"frag", "unfrag", "add"}[r.intn(3)]
+			par := r.rangeI(1, 5) * 1000000000
+			if kind == "add" {
+				par = r.rangeI(-6, 6) * 1000000000
+				if par == 0 {
+					par = 1000000000
+				}
+			}
+			c.do(fmt.Sprintf("ops.cli %s %d %s", kind, par, encMItems(xs)))
+			c.count(kind)
 		}
 	}}
 
